@@ -414,6 +414,21 @@ def check_config(cfg, ops, tmp, ls):
                     out.append(("wrong-rendering", "style %s format %r: %r expected %r" % (style, fmt, rendered, want)))
         elif kind == "mkdir":
             os.makedirs(os.path.join(tmp, "later"), exist_ok=True)
+        elif kind == "emit":
+            # the application logs something: a handler that opens its file lazily has a stream now
+            for h, spec in live:
+                if getattr(h, "_zcv_closed", False) or getattr(h, "_zcv_ignore", False):
+                    continue
+                keep = h.formatter
+                h.setFormatter(logging.Formatter("%(message)s"))    # what the format makes of a record is checked elsewhere
+                try:
+                    h.handle(logging.LogRecord("zcv.emit", 50, __file__, 1, "zcv emitted record", (), None))
+                except Exception as e:  # noqa
+                    out.append(("emit-raises:%s" % type(e).__name__, str(e)[:200]))
+                finally:
+                    h.setFormatter(keep)
+                if h.stream is None or h.stream.closed:
+                    out.append(("live-handler-has-no-stream-after-a-record", type(h).__name__))
         elif kind == "reopen":
             i = op[1] % len(cfg)
             if i in created and factories[i] is not None:
@@ -701,12 +716,16 @@ def gen_ops(rng, n, retry=False):
         k = rng.randrange(n - 1)
         return [("call", j) for j in range(n)] + [("drop", k), ("reopenFiles", 0)] + [("reopenFiles", 0)] * rng.randint(0, 1)
     if rng.random() < 0.1:
+        # records are written, then the files are reopened (and written to again) and closed
+        k = rng.randrange(4)
+        return [("call", k), ("emit", 0), ("reopenFiles", 0), ("emit", 0), rng.choice([("reopen", k), ("reopenFiles", 0)]), ("closeFiles", 0)]
+    if rng.random() < 0.1:
         # everything closed, then one logger asked to reopen its handlers
         k = rng.randrange(4)
         return [("call", k), ("closeFiles", 0)] + [("call", k)] * rng.randint(0, 1) + [("reopen", k), ("reopenFiles", 0)]
     ops = [("call", rng.randrange(4))]
     for _ in range(rng.randint(0, 5)):
-        k = rng.choice(["call", "again", "reopen", "reopenFiles", "closeFiles", "drop", "call", "startup", "closeOne"])
+        k = rng.choice(["call", "again", "reopen", "reopenFiles", "closeFiles", "drop", "call", "startup", "closeOne", "emit", "emit"])
         ops.append((k, rng.randrange(4)))
     return ops
 
